@@ -95,9 +95,9 @@ def c08(tier, seed):
             op("blind_proof_verify_%s_U%d_L%d_i%d_%d_n%d_%d" % (sk_, U, LC, I1, I2, N1, N2),
                "op_blind_proof_verify::<%s, %d, %d, %d, %d, %d, %d, %d>()" % (cs, U, 272 + 32 * U, LC, I1, I2, N1, N2), "G",
                dict(entry="blind_proof_verify", part="index handling", suite=sk_, U=U, L=LC, index_shapes=[I1, I2], msgs=[N1, N2]))
-    bsl = [1, 47, 48, 79, 112, 113, 144]
+    bsl = [112, 113, 144]
     if th:
-        bsl = sorted(set(bsl + [2, 31, 32, 49, 143, 145, 176, 177]))
+        bsl = sorted(set(bsl + [143, 145, 176, 177]))
     for n in bsl:
         for L in ([0, 1] if th else [pick(seed, "bsL%d" % n, [0, 1], 1)[0]]):
             for sk_, cs in one_suite(tier, seed, "c08bs%d" % n):
@@ -205,13 +205,13 @@ def c10(tier, seed):
             u("keygen_%s_ikm%d_ki%d_kd%d" % (sk_, ikm, ki, kd), "keygen_match::<%s, %d, %d, %d>()" % (cs, ikm, ki, kd),
               dict(unit="KeyGen/SkToPk", suite=sk_, ikm_len=ikm, key_info_shape=ki, key_dst_shape=kd))
         u("keygen_limits_%s" % sk_, "keygen_limits::<%s>()" % cs, dict(unit="KeyGen", suite=sk_, key_info_len=65536))
-        for (n, api) in [(0, 0), (1, 0), (2, 0), (2, 1), (1, 2), (1, 3), (1, 4)] + ([(3, 0), (3, 1), (2, 2), (2, 3), (2, 4), (4, 0)] if th else []):
+        for (n, api) in [(0, 0), (1, 0), (2, 0), (2, 1), (1, 2), (1, 3)] + ([(3, 0), (3, 1), (2, 2), (2, 3), (4, 0)] if th else []):
             u("gens_%s_n%d_api%d" % (sk_, n, api), "gens_match::<%s, %d, %d>()" % (cs, n, api), dict(unit="create_generators", suite=sk_, count=n, api_id_shape=api))
         for (k1, k2) in [(1, 2), (2, 1), (1, 1)] + ([(2, 3), (0, 2), (3, 1)] if th else []):
             u("gens_history_%s_%d_%d" % (sk_, k1, k2), "gens_history::<%s, %d, %d>()" % (cs, k1, k2), dict(unit="create_generators twice", suite=sk_, first=k1, second=k2))
         for (ml, bl) in [(0, "false"), (1, "true"), (2, "false")] + ([(3, "true"), (8, "false"), (32, "true")] if th else []):
             u("m2s_%s_m%d_%s" % (sk_, ml, bl[0]), "m2s_match::<%s, %d, %s>()" % (cs, ml, bl), dict(unit="messages_to_scalar", suite=sk_, msg_len=ml, blind_api=bl))
-        for m1 in [0, 1, 2] + ([3] if th else []):
+        for m1 in [0, 1] + ([2] if th else []):
             u("blind_challenge_%s_g%d" % (sk_, m1), "blind_challenge_match::<%s, %d>()" % (cs, m1), dict(unit="calculate_blind_challenge", suite=sk_, generators=m1))
     return S
 
